@@ -16,7 +16,7 @@ import numpy as np
 import scipy.sparse as sp
 
 from . import binding as B
-from .seams import Seams
+from .seams import Seams, SimInterrupt
 
 
 def _bytes(a):
@@ -189,6 +189,15 @@ class Session:
             if Xw_init is not None:
                 res["Xw_buf"] = np.array(Xw_init, dtype=float)
                 res["w_buf"] = np.array(w_init, dtype=float)
+        except SimInterrupt:
+            # F-INTERRUPT: the call was killed at a seam event; only the caller's in-place
+            # buffers survive
+            res["exc"] = dict(type="SimInterrupt", interrupted=True, msg="", where=None,
+                              in_skglm=False, harness=False)
+            res["phase"] = "solve"
+            if Xw_init is not None and w_init is not None:
+                res["Xw_buf"] = np.array(Xw_init, dtype=float)
+                res["w_buf"] = np.array(w_init, dtype=float)
         except Exception as e:
             res["exc"] = classify_exception(e)
             res["phase"] = "solve"
@@ -216,6 +225,8 @@ class Session:
         self.log.update(repr((res["knobs"], res["start"], res["storage"])).encode())
         if res["exc"]:
             self.log.update(repr((res["exc"]["type"], res["exc"]["where"])).encode())
+            if res["exc"].get("interrupted") and res.get("w_buf") is not None:
+                self.log.update(_bytes(res["w_buf"]) + _bytes(res["Xw_buf"]))
         else:
             self.log.update(_bytes(res["w"]))
             self.log.update(_bytes(res["obj_out"]))
@@ -233,6 +244,8 @@ class Session:
         elif res.get("w_buf") is not None:
             # the call died; only the in-place buffers survive
             self.w, self.Xw = res["w_buf"].copy(), res["Xw_buf"].copy()
+            if res["exc"].get("interrupted") and not res.get("buffers_consistent", True):
+                self.Xw = None      # the client recomputes the model fit before restarting
 
     # ------------------------------------------------------------------ operations
     def op_set(self, op):
